@@ -149,6 +149,76 @@ pub fn draw_ops(rng: &mut Prng, cases: &[&Case], epic: bool) -> Vec<Op> {
     ops
 }
 
+/// Programs of a storm run: `(case, argument variant, accepted?)`; the first is accepted, the
+/// others are rejected (one of them, where there is one, not by the grammar but by the analysis).
+pub fn storm_cases(rng: &mut Prng, cases: &[Case], golden: &simcore::Golden) -> Option<Vec<(usize, usize, bool)>> {
+    let mut oks = Vec::new();
+    let mut errs = Vec::new();
+    let mut late_errs = Vec::new();
+    for (i, c) in cases.iter().enumerate() {
+        if c.text.len() >= 2000 {
+            continue;
+        }
+        for a in 0..c.args.len() {
+            match (golden.get(&(i, a, false)), golden.get(&(i, a, true))) {
+                (Some(Outcome::Ok { .. }), Some(Outcome::Ok { .. })) => oks.push((i, a, true)),
+                (Some(Outcome::Err(e)), Some(Outcome::Err(_))) => {
+                    if !e.contains("Grammar error") {
+                        late_errs.push((i, a, false));
+                    }
+                    errs.push((i, a, false));
+                }
+                _ => {}
+            }
+        }
+    }
+    if oks.is_empty() || errs.is_empty() {
+        return None;
+    }
+    let mut pick = vec![*rng.pick(&oks)];
+    pick.push(if late_errs.is_empty() { *rng.pick(&errs) } else { *rng.pick(&late_errs) });
+    if rng.coin() {
+        pick.push(*rng.pick(&errs));
+    }
+    Some(pick)
+}
+
+/// One thread, no change of hash epoch: the accepted program, then 260..520 operations of which
+/// four in five compile a rejected program, with the accepted one compiled again now and then and
+/// at the end (both debug settings).
+pub fn draw_storm(rng: &mut Prng, pick: &[(usize, usize, bool)]) -> Vec<Op> {
+    let mut ops = vec![Op::Epoch { seed: rng.next() | 1 }];
+    let (_, ok_args, _) = pick[0];
+    let mut n_compiled = 0usize;
+    let mut ok_slots: Vec<usize> = Vec::new();
+    for d in [false, true] {
+        ops.push(Op::Compile { case: 0, args: ok_args, debug: d });
+        ok_slots.push(n_compiled);
+        n_compiled += 1;
+    }
+    let n = rng.range(260, 520);
+    for _ in 0..n {
+        match rng.below(20) {
+            0..=15 => {
+                let e = 1 + rng.below(pick.len() - 1);
+                ops.push(Op::Compile { case: e, args: pick[e].1, debug: rng.coin() });
+                n_compiled += 1;
+            }
+            16 | 17 => {
+                ops.push(Op::Compile { case: 0, args: ok_args, debug: rng.coin() });
+                ok_slots.push(n_compiled);
+                n_compiled += 1;
+            }
+            18 => ops.push(Op::NewTemplate { case: 1 + rng.below(pick.len() - 1) }),
+            _ => ops.push(Op::Commit { c: *rng.pick(&ok_slots) }),
+        }
+    }
+    for d in [false, true] {
+        ops.push(Op::Compile { case: 0, args: ok_args, debug: d });
+    }
+    ops
+}
+
 pub struct Violation {
     pub class: String,
     pub step: usize,
@@ -549,19 +619,27 @@ pub fn run(o: &Opts) -> i32 {
     let runs: u64 = if o.tier == "thorough" { 12_000 } else { 480 };
     let mut rep = Report::new(&o.out, "A", o.shard);
     let mut stats = ExecStats::default();
-    for run in 0..runs {
+    // "storm" runs come after the ordinary ones (run numbers >= runs, so the ordinary runs are
+    // exactly what they were before storms existed): hundreds of *rejected* compilations on one
+    // thread around an accepted program whose verdict and bytes must not change
+    let storms: u64 = if o.tier == "thorough" { 480 } else { 16 };
+    for run in 0..runs + storms {
         if (run as usize) % o.shards != o.shard {
             continue;
         }
         let s = mix(o.seed ^ tag("legA") ^ run);
         let mut rng = Prng::new(s);
-        let epic = rng.below(40) == 0;
+        let storm_pick = if run >= runs { storm_cases(&mut rng, &cases, &golden) } else { None };
+        let storm = storm_pick.is_some();
+        let epic = !storm && rng.below(40) == 0;
         // 1..4 cases per run, biased to repeat few programs many times
-        let k = rng.range(1, 4);
+        let k = if storm { 0 } else { rng.range(1, 4) };
         // every other run draws its programs from one family (an original and texts derived from
         // it: same spans and names, other constants / layout), so that anything keyed by position
         // or by name across compilations gets near-identical programs on one thread
-        let idx: Vec<usize> = if epic {
+        let idx: Vec<usize> = if let Some(pick) = &storm_pick {
+            pick.iter().map(|p| p.0).collect()
+        } else if epic {
             let small: Vec<usize> = (0..cases.len()).filter(|i| cases[*i].text.len() < 2500).collect();
             (0..k.max(2)).map(|_| *rng.pick(&small)).collect()
         } else if rng.coin() {
@@ -573,7 +651,13 @@ pub fn run(o: &Opts) -> i32 {
             (0..k).map(|_| rng.below(cases.len())).collect()
         };
         let sel: Vec<&Case> = idx.iter().map(|i| &cases[*i]).collect();
-        let ops_list = draw_ops(&mut rng, &sel, epic);
+        let ops_list = match &storm_pick {
+            Some(pick) => draw_storm(&mut rng, pick),
+            None => draw_ops(&mut rng, &sel, epic),
+        };
+        if storm {
+            rep.count("storm_runs_260_to_520_mostly_rejected_compilations_on_one_thread", 1);
+        }
         if epic {
             rep.count("epic_runs_300_to_900_operations", 1);
         }
@@ -618,7 +702,17 @@ pub fn run(o: &Opts) -> i32 {
         }
         if let Some(v) = viol {
             let ops_s: Vec<String> = ops_list.iter().filter(|o| !matches!(o, Op::Epoch { .. })).map(|o| o.name().to_string()).collect();
-            let scenario = format!("{} in [{}] on {}", v.class, ops_s.join(","), sel.iter().map(|c| c.id.as_str()).collect::<Vec<_>>().join("+"));
+            let ops_txt = if ops_s.len() <= 40 {
+                ops_s.join(",")
+            } else {
+                // long histories: operation counts instead of the list (the replay file has the list)
+                let mut counts: std::collections::BTreeMap<&str, usize> = Default::default();
+                for o in &ops_s {
+                    *counts.entry(o.as_str()).or_default() += 1;
+                }
+                format!("{} operations: {}", ops_s.len(), counts.iter().map(|(k, n)| format!("{k} x{n}")).collect::<Vec<_>>().join(", "))
+            };
+            let scenario = format!("{} in [{}] on {}", v.class, ops_txt, sel.iter().map(|c| c.id.as_str()).collect::<Vec<_>>().join("+"));
             let path = o.verif.join("replays").join(format!("C19-A-{}-{}.json", o.seed, run));
             let doc = serde_json::json!({
                 "property": "C19", "leg": "A", "class": v.class, "detail": v.detail, "scenario": scenario,
